@@ -3653,7 +3653,10 @@ impl TimestampRound {
             self.smallest,
             increment,
         );
-        let nanosecond = UnixNanoseconds::rfrom(rounded);
+        // Rounding can go beyond the minimum or maximum timestamp, e.g.,
+        // `Timestamp::MAX.round(Unit::Hour)`, so this must be checked.
+        let nanosecond =
+            UnixNanoseconds::try_new128("nanoseconds", rounded.get())?;
         Ok(Timestamp::from_nanosecond_ranged(nanosecond))
     }
 }
